@@ -81,6 +81,17 @@ def run(ctx):
         else:
             rc = sig * rcr
             r = sig * float(rng.uniform(0.5, rc / sig))
+        if i % 11 == 3:
+            # integer-valued arguments handed over as integers (Python int or numpy int64): epsilon = 1, sigma = 1, r_c = 3, r = 2, n = 12
+            conv = int if (i // 11) % 2 else np.int64
+            eps_, A, n = conv(rng.integers(1, 4)), conv(rng.integers(1, 3)), conv(rng.choice([6, 9, 12]))
+            if model == "harmonic_hertz":
+                sig, r, al = conv(rng.integers(2, 5)), conv(1), conv(rng.choice([2, 3]))
+                rc, beyond = sig, False
+            else:
+                sig, rc, r = conv(1), conv(rng.integers(3, 6)), conv(2)
+            fam = None
+            ctx.count("integer_arguments")
         pars = {"model": model, "r": r, "epsilon": eps_, "sigma": sig, "r_c": rc, "shift": shift, "n": n, "A": A, "alpha": al}
         ip = InteractionParams(model_name=getattr(ModelName, model), ipl_n=n, ipl_A=A, harmonic_hertz_alpha=al)
         pi = PairInteractions(r=r, epsilon=eps_, sigma=sig, r_c=rc, shift=shift)
@@ -100,13 +111,13 @@ def run(ctx):
             ctx.violation(f"{model}/shape", f"returned {got!r}", pars)
             continue
         U, d1, d2 = orc[model]
-        a = (mpmath.mpf(r), mpmath.mpf(eps_), mpmath.mpf(sig), mpmath.mpf(n), mpmath.mpf(A), mpmath.mpf(al))
+        a = tuple(mpmath.mpf(float(v_)) for v_ in (r, eps_, sig, n, A, al))
         e1 = d1(*a)
         e2 = d2(*a)
         if model == "harmonic_hertz":
             erc = mpmath.mpf(0)
         elif shift:
-            erc = d1(mpmath.mpf(rc), *a[1:])
+            erc = d1(mpmath.mpf(float(rc)), *a[1:])
         else:
             erc = mpmath.mpf(0)
         exp = np.array([float(e1), float(erc), float(e2)])
